@@ -141,22 +141,87 @@ def rule_failure_gating(ctx):
         ctx.floor("C04.4", "Err rows of the ingest-result closure", n_err, 1)
 
 
+def rule_statement_scope(ctx):
+    """C04.5 — the deleting statement of every SqliteStore::prune_entries is scoped to the prune operation's own log:
+    a DELETE whose top-level WHERE is a conjunction containing `verifying_key = ?`, `log_id = ?` and a strict
+    `seq_num < ?`, with the three placeholders bound, in that order, to the method's author / log id / seq_num
+    arguments.  Conjunct analysis of the statement text (rules/sql.py), not SQL semantics."""
+    import sql
+    from mir import deep_locals
+    bodies = [lz.get() for lz in ctx.prog.lazy if lz.kind == "coroutine" and lz.root.endswith("::prune_entries")
+              and "SqliteStore" in lz.root and "LogStore" in lz.root]
+    ctx.floor("C04.5", "SqliteStore::prune_entries implementations", len(bodies), 1)
+    for b in bodies:
+        q = [c for c in sem_calls(b) if c.name.endswith("query::query") or c.name.endswith("query_as::query_as")]
+        if not ctx.ob("C04.5", "one statement in prune_entries", len(q) == 1, "%d statements" % len(q), site=b.loc(), trivial=True):
+            continue
+        consts = [c for c in origins(b, q[0].args[0]).consts if isinstance(c, dict) and c.get("ty") == "&str"]
+        if not ctx.ob("C04.5", "statement text is a constant", len(consts) == 1,
+                      "the statement of prune_entries is not a single string constant (%d): cannot be analysed" % len(consts),
+                      site=q[0].loc(), key="C04.5:statement-constant"):
+            continue
+        text = sql.sql_text(consts[0]["c"])
+        kind, conj, has_or = sql.top_level_where(text)
+        have = {(c[0], c[1]) for c in conj if c[0] != "complex"}
+        need = {("verifying_key", "="), ("log_id", "="), ("seq_num", "<")}
+        ctx.ob("C04.5", "prune statement is scoped to (author, log) with a strict upper bound",
+               kind == "DELETE" and need <= have and not has_or,
+               "prune_entries executes `%s`: the top-level WHERE must be a conjunction containing verifying_key = ?, "
+               "log_id = ? and seq_num < ? (found %s%s) — otherwise operations of the author's other logs, or the prune "
+               "point itself, are deleted" % (text[:200], sorted(have), ", top-level OR" if has_or else ""),
+               site=q[0].loc(), key="C04.5:statement-scope")
+        # placeholders are bound in the order author, log id, seq_num (bare `?`) or by their numbers
+        binds = [c for c in sem_calls(b) if c.name.endswith("::bind")]
+        order = []
+        for c in binds:
+            _, ps = deep_locals(b, c.args[1])
+            order.append(sorted({f for (l, f) in ps if l == 1 and f is not None}))
+        cols = [c for c in conj if c[0] != "complex"]
+        want = {}
+        for i, (col, op, ph) in enumerate(c for c in conj if c[0] != "complex"):
+            idx = int(ph[1:]) - 1 if len(ph) > 1 else i
+            want[col] = idx
+        env_fields = {}
+        for name, pls in b.vars.items():
+            for p_ in pls:
+                if p_.local == 1 and p_.proj and isinstance(p_.proj[0], list):
+                    env_fields[p_.proj[0][1]] = name
+        ok = True
+        detail = {}
+        # upvar order of an async trait method: self, then the parameters in declaration order
+        params = sorted(env_fields)
+        if len(params) >= 4 and all(col in want for col in ("verifying_key", "log_id", "seq_num")):
+            exp = {"verifying_key": params[1], "log_id": params[2], "seq_num": params[3]}
+            for col, fld in exp.items():
+                i = want[col]
+                got = order[i] if i < len(order) else None
+                detail[col] = got
+                if got != [fld]:
+                    ok = False
+        else:
+            ok = False
+        ctx.ob("C04.5", "placeholders are bound to the matching arguments", ok,
+               "bind order of prune_entries: %s (upvars %s)" % (detail, params), site=b.loc(), key="C04.5:bind-order")
+        ctx.sample({"prune_entries statement": text[:160], "conjuncts": [c[:3] for c in conj]})
+
+
 def run(ctx):
     ctx.explanation = (
         "Decides: (1) who-may-call prune_entries / who-may-construct PruneEntriesUntil; (2) decision "
         "table of Event::new: prune arguments are the operation's own author and seq_num and the "
         "caller's log id, only when the flag is set; (3) LogPrune::process passes exactly those fields; "
         "(4) the Err arm of the ingest-result mapping in Pipeline::new disarms the prune arguments (or "
-        "the Borrow impl gates them on a completed ingest). NOT decided: that the SQL DELETE removes "
-        "exactly the rows below seq_num.")
+        "the Borrow impl gates them on a completed ingest); (5) conjunct analysis of the DELETE statement of "
+        "SqliteStore::prune_entries: scoped by verifying_key = ?, log_id = ? and a strict seq_num < ?, bound to the "
+        "matching arguments. NOT decided: SQL semantics beyond that shape.")
     ctx.assumptions.append("the pipeline is the only consumer of Event (who-may-call rule 1)")
-    for r in (rule_who, rule_event_new, rule_prune_args_flow, rule_failure_gating):
+    for r in (rule_who, rule_event_new, rule_prune_args_flow, rule_failure_gating, rule_statement_scope):
         ctx.guarded(lambda r=r: r(ctx), "C04")
 
 
 MANIFEST = {
     "category": "other",
-    "technique": "who-may-call/construct scans + decision tables (abstract interpretation) of Event::new, the ingest-result closure and the Borrow impl + provenance of prune_entries arguments",
-    "text": "Static: the deleting call has one caller; its arguments are traced to the event's own header fields; the table of the ingest-result closure shows what reaches the prune layer on the failure arm. Decides the authentication/scoping structure; the DELETE statement itself is SQL and not decided.",
+    "technique": "who-may-call/construct scans + decision tables (abstract interpretation) of Event::new, the ingest-result closure and the Borrow impl + provenance of prune_entries arguments + conjunct analysis of the DELETE statement constant (scope and bind order)",
+    "text": "Static: the deleting call has one caller; its arguments are traced to the event's own header fields; the table of the ingest-result closure shows what reaches the prune layer on the failure arm. Decides the authentication/scoping structure and the scoping shape of the DELETE statement (top-level conjuncts, bind order); SQL semantics beyond that shape are not decided.",
     "note": "Trusted: rustc MIR, driver, rule engine. Accepted repair idioms are listed in the rule; another idiom is reported as a violation naming the idiom table (fail closed).",
 }
